@@ -424,7 +424,8 @@ func RunL1Cube(P *Program, c *Cube, prop string, solver string, timeoutMs int) (
 				res.Obs = append(res.Obs, ObResult{Prop: ob.Prop, Name: ob.Name, Verdict: "unsat", Seconds: secs, Via: "combined query"})
 				res.Discharged++
 			}
-			break
+			remaining = nil
+			continue
 		}
 		if v == Unknown {
 			// fall back to one query per obligation
@@ -531,7 +532,11 @@ func RunL1(prop, tier, solver string, timeoutMs int) (*L1Run, *Program, error) {
 	}
 	t0 := time.Now()
 	src := HarnessSource(cubes)
-	P, err := Load("/repo/scheduler", map[string][]byte{"/repo/scheduler/zz_verif_harness.go": []byte(src)}, "", ".")
+	repo := "/repo"
+	if r := os.Getenv("VERIF_REPO"); r != "" {
+		repo = r // experiments on a scratch copy; registered commands never set this
+	}
+	P, err := Load(repo+"/scheduler", map[string][]byte{repo + "/scheduler/zz_verif_harness.go": []byte(src)}, "", ".")
 	if err != nil {
 		return nil, nil, err
 	}
